@@ -74,7 +74,8 @@ def strategy():
         chain = draw(st.lists(gen.ident_bytes(1, 15), min_size=0, max_size=6))
         orphan = draw(st.sampled_from([False, False, False, True]))
         newsid = draw(st.booleans())
-        host = draw(st.one_of(st.none(), gen.ident_bytes(1, 40)))
+        # (node names up to the kernel's maximum of 64 bytes)
+        host = draw(st.one_of(st.none(), gen.ident_bytes(1, 40), st.sampled_from([63, 64, 64]).map(lambda n: (b"node-with-a-very-long-name-" * 3)[:n])))
         logname = draw(st.one_of(st.none(), gen.ident_bytes(1, 20), gen.ident_bytes(250, 260)))
         sudo_user = draw(st.one_of(st.none(), st.none(), gen.ident_bytes(1, 20)))
         dtf = draw(st.sampled_from(DT_FORMATS))
@@ -86,11 +87,14 @@ def strategy():
                 "dtf": dtf, "cgs": cgs, "leaf": leaf, "bigpid": draw(st.sampled_from([0] * 7 + [1234567, 4194000])),
                 # the calling program is a set-uid-root program started by another user (sudo, su, pkexec ...): secure-execution mode of the
                 # loader and the C library, libraries loaded through /etc/ld.so.preload
-                "secure": draw(st.sampled_from([False, False, False, True]))}
+                "secure": draw(st.sampled_from([False, False, False, True])),
+                # the session has an audit login uid (cron job, ssh session): the login name does not depend on a terminal then
+                "loginuid": draw(st.sampled_from([False, False, False, True]))}
     return case()
 
 
 SECURE = "ts-plain-secure"
+LOGINUID = "ts-asan-loginuid"
 UTMP = None
 
 
@@ -200,7 +204,7 @@ def gr_name(gid):
 
 
 def evaluate(env, c):
-    d = env.driver(SECURE if c.get("secure") and SECURE in env.builds else "ts-asan")
+    d = env.driver(SECURE if c.get("secure") and SECURE in env.builds else (LOGINUID if c.get("loginuid") and LOGINUID in env.builds else "ts-asan"))
     out = d.out
     import shutil
     work = os.path.join(out, "w")
@@ -434,7 +438,8 @@ def classify(c):
     tty = c["stdin"] == "pty"
     nontriv = distinct or tty or c["cwd"] in ("deleted", "deep") or c["orphan"]
     cls = ["cwd:" + c["cwd"], "stdin:" + c["stdin"], "env:" + c["envk"], "chain:%d" % len(c["chain"])] + (["pid:7-digits(own pid namespace)"] if c.get("bigpid") else []) + \
-          (["set-uid-program-started-by-another-user(AT_SECURE)"] if c.get("secure") else [])
+          (["set-uid-program-started-by-another-user(AT_SECURE)"] if c.get("secure") else []) + \
+          (["session-with-audit-login-uid"] if c.get("loginuid") and not c.get("secure") else [])
     for f, n in ((distinct, "ids-distinct"), (c["orphan"], "orphan"), (c["newsid"], "new-session"), (c["host"] is not None, "uts-hostname"),
                  (any(pw_name(u) is None for u in c["u"][:2]), "uid-without-passwd-entry"),
                  (any(gr_name(g) is None for g in c["g"][:2]), "gid-without-group-entry")):
@@ -526,7 +531,8 @@ def main():
     drv.make_utmp(UTMP)
     bsec = dict(ctx.run.build("ts-plain"), name=SECURE, driver_kwargs={"secure": True})
     CONFIGURE_SECURE = re.search(r'#define SNOOPY_CONFIGURE_COMMAND "(.*)"\n', open(os.path.join(bsec["src"], "config.h")).read()).group(1).encode().replace(b'\\"', b'"')
-    pbt.run(ctx, {"ts-asan": b, SECURE: bsec}, strategy, evaluate, classify, nw, per, driver_kwargs={"binds": [(v, k) for k, v in sorted(SYSFILES.items())], "utmp": UTMP})
+    blog = dict(b, name=LOGINUID, driver_kwargs={"loginuid": 1})
+    pbt.run(ctx, {"ts-asan": b, SECURE: bsec, LOGINUID: blog}, strategy, evaluate, classify, nw, per, driver_kwargs={"binds": [(v, k) for k, v in sorted(SYSFILES.items())], "utmp": UTMP})
     if not ctx.replay:
         interrupted_reads_phase(ctx, b)
     ctx.finish()
